@@ -129,7 +129,7 @@ impl<'a> G<'a> {
             // with that parenthesis: none are generated there)
             let paren = matches!(&f, F::Pos(e) if starts_paren(e));
             // comments on lines of their own in front of a field
-            if comok && !paren { while self.rng.chance(1, 6) { let b = self.rng.chance(1, 4); let c = self.comment(); fs.push(F::Com(b, c)); } }
+            if comok && !paren { while self.rng.chance(1, 4) { let b = self.rng.chance(1, 4); let c = self.comment(); fs.push(F::Com(b, c)); } }
             if ml && self.rng.chance(1, 2) { let b = !paren && self.rng.chance(1, 4); let t = if comok && self.rng.chance(1, 3) { Some(self.comment()) } else { None }; fs.push(F::Line(b, Box::new(f), t)); }
             else { fs.push(f); }
         }
@@ -138,7 +138,7 @@ impl<'a> G<'a> {
         E::Table(ml, fs)
     }
     /// the only value of a local / an assignment / a return: one time in four a table that may hold comments
-    fn sole(&mut self, d: usize, va: bool) -> E { if d > 0 && self.noml == 0 && self.rng.chance(1, 4) { self.comok = true; let t = self.table(d - 1, va); self.comok = false; t } else { self.exp(d, va) } }
+    fn sole(&mut self, d: usize, va: bool) -> E { if d > 0 && self.noml == 0 && self.rng.chance(1, 2) { self.comok = true; let t = self.table(d - 1, va); self.comok = false; t } else { self.exp(d, va) } }
     fn exps(&mut self, min: usize, d: usize, va: bool) -> Vec<E> { (0..min + self.rng.below(3)).map(|_| self.exp(d, va)).collect() }
     fn names(&mut self) -> Vec<String> { (0..1 + self.rng.below(2)).map(|_| self.name()).collect() }
     /// a variable: name, or a chain that ends in a field or an index and starts with a name
@@ -422,11 +422,16 @@ pub fn main(args: &[String]) {
         i += 1;
     }
     let mut records = 0usize; let mut unparsed = 0usize;
+    // what the generated programs hold (counted on the trees) and which option values the records ran under: goes into the evidence
+    let mut dist: std::collections::BTreeMap<String, usize> = std::collections::BTreeMap::new();
     for k in 0..n {
         if k % shards != shard { continue; }
         let mut rng = Rng(seed.wrapping_mul(0x9E3779B97F4A7C15) ^ (k as u64).wrapping_mul(0xD1B54A32D192ED03) ^ 0x10);
         let prog = { let mut g = G { rng: &mut rng, loops: 0, noml: 0, comok: false, argcom: false }; let mut b = g.block_t(0, true, 5, true); if b.items.is_empty() { let s = g.stmt(0, true); b.items.push(Item { lead: vec![], blank: false, s, trail: None }); } b };
         let tree = sx_b(&prog);
+        for (key, pat) in [("programs_with_tables_over_several_lines", "(tableml_"), ("programs_with_comment_lines_in_tables", "(fcom_"), ("programs_with_field_lines", "(fline_"), ("programs_with_call_sugar", "_1_("), ("programs_with_if", "(if_"), ("programs_with_function", "function_")] {
+            if tree.contains(pat) { *dist.entry(key.to_string()).or_insert(0) += 1; }
+        }
         let src = { let mut p = P { rng: &mut rng, out: String::new(), noblank: false }; p.block(&prog, true); if !p.out.ends_with('\n') && p.rng.chance(3, 4) { p.t("\n"); } p.out };
         if !parses(&src, syntax("Lua51")) { unparsed += 1; println!("UNPARSED g{} {}", k, hex(src.as_bytes())); continue; }
         for (win, spaces, width) in [(0, 0, 4), (1, 0, 4), (0, 1, 1 + rng.below(8)), (1, 1, 1 + rng.below(8))] {
@@ -439,6 +444,7 @@ pub fn main(args: &[String]) {
                                &format!("call_parentheses={}", callp), &format!("space_after_function_names={}", space),
                                &format!("collapse_simple_statement={}", collapse)]);
             records += 1;
+            for (o, v) in [("quote", style), ("call_parentheses", callp), ("space_after_function_names", space), ("collapse_simple_statement", collapse)] { *dist.entry(format!("{}_{}", o, v)).or_insert(0) += 1; }
             match format_guarded(&src, cfg, None) {
                 Outcome::Ok(o) => println!("L0 g{} {} {} {} {}/{}/{}/{} {} {} ok {}", k, win, spaces, width, style, callp, space, collapse, tree, hex(src.as_bytes()), hex(o.as_bytes())),
                 Outcome::ParseError => println!("L0 g{} {} {} {} {}/{}/{}/{} {} {} parseerror -", k, win, spaces, width, style, callp, space, collapse, tree, hex(src.as_bytes())),
@@ -447,5 +453,5 @@ pub fn main(args: &[String]) {
             }
         }
     }
-    println!("STATS records={} unparsed={}", records, unparsed);
+    println!("STATS records={} unparsed={}{}", records, unparsed, dist.iter().map(|(k, v)| format!(" {}={}", k, v)).collect::<String>());
 }
